@@ -298,7 +298,9 @@ def parser_models(ctx):
     import fsic
     from fsic.extensions import TracerMixin
     rng = ctx.rng('c17-parser')
-    scripts = ['Y = C + G\nC = {c} * Y[0]', 'Y = 0.5 * Y[-1] + X\nZ = Y * 2', 'A = log(X)\nB = A + 1']
+    scripts = ['Y = C + G\nC = {c} * Y[0]', 'Y = 0.5 * Y[-1] + X\nZ = Y * 2', 'A = log(X)\nB = A + 1',
+               # variables named like members of the model object (a property, two methods)
+               'size = copy + eval\ncopy = 0.5 * size[0]', 'values = 0.5 * values[-1] + solve\nnbytes = values * 2']
     for k, script in enumerate(scripts):
         if not ctx.mine(k):
             continue
